@@ -1,12 +1,24 @@
 #!/bin/bash
-# tools/soak.sh <parallel> <seed> [<seed> ...]: runs the quick tier of every check at the given seeds,
-# <parallel> at a time (so that they load the machine for each other), and lists every run that was
-# not a plain OK. Evidence files are not touched (VERIF_TAG is set).
+# tools/soak.sh <parallel> <seed> [<seed> ...]: runs the quick tier of every check (or $SOAK_IDS) at the
+# given seeds, <parallel> at a time (so that they load the machine for each other), and lists every run
+# that was not a plain OK. Evidence files are not touched (VERIF_TAG is set); verdicts are kept in
+# .work/soakverdicts for tools/floors.py, artefacts of failed runs in .work/soakfail-<ID>-<seed>.
 cd "$(dirname "$0")/.."
 P=$1; shift
 out=.work/soak-$(date +%s).log
 IDS=${SOAK_IDS:-C01 C02 C03 C04 C05 C06 C07 C08 C09 C10 C11 C12 C13 C14 C15 C16 C17 C18 C19 C20}
-for s in "$@"; do for id in $IDS; do echo "$id $s"; done; done |
-  xargs -P "$P" -L 1 bash -c 'o=$(VERIF_SEED=$1 VERIF_TAG=soak$1 ./check $0 quick 2>&1); rc=$?; echo "$0 seed=$1 rc=$rc $(echo "$o" | tail -1 | cut -c1-220)"; [ $rc -ne 0 ] && { echo "$o" | grep -E "^(VIOLATION|CHECK-BROKEN)" | head -5 | cut -c1-400; mkdir -p .work/soakfail-$0-$1; cp .work/$0-soak$1/race.* .work/$0-soak$1/replay-*.json .work/$0-soak$1/log .work/soakfail-$0-$1/ 2>/dev/null; }; true' | tee "$out"
+one() {
+  id=$1; seed=$2
+  o=$(VERIF_SEED=$seed VERIF_TAG=soak$seed ./check $id quick 2>&1); rc=$?
+  echo "$id seed=$seed rc=$rc $(echo "$o" | tail -1 | cut -c1-220)"
+  mkdir -p .work/soakverdicts; cp .work/$id-soak$seed/verdict.json .work/soakverdicts/$id-$seed.json 2>/dev/null
+  if [ $rc -ne 0 ]; then
+    echo "$o" | grep -E "^(VIOLATION|CHECK-BROKEN)" | head -5 | cut -c1-400
+    mkdir -p .work/soakfail-$id-$seed
+    cp .work/$id-soak$seed/race.* .work/$id-soak$seed/replay-*.json .work/$id-soak$seed/log .work/soakfail-$id-$seed/ 2>/dev/null
+  fi
+  rm -rf .work/$id-soak$seed
+}
+export -f one
+for s in "$@"; do for id in $IDS; do echo "$id $s"; done; done | xargs -P "$P" -L 1 bash -c 'one $0 $1' | tee "$out"
 echo "--- not OK:"; grep -v " rc=0 " "$out" | grep "rc=" || echo none
-rm -rf .work/*-soak*
